@@ -154,9 +154,17 @@ def run(tier, seed):
     thm = check_theorems("C16")
     ncase = 240 if tier == "quick" else 4000
     cases, meta, bad = [], [], []
+    # hand-made configurations run for every class first: start inside the box and leave in the very first step; start on the edge;
+    # start outside, enter and leave; start inside with a limit already met; trace stride with the last step on / off the grid
+    def fx(x0, v, dt, bounds, max_steps=40, max_time=None, every=1, t0=0.0):
+        return dict(ndim=1, dt=dt, t0=t0, every=every, max_steps=max_steps, max_time=max_time, x0=[x0], v=[v], mass=[2.0], bounds=bounds, force=[0.0])
+    FIXED = [fx(0.0, 1.0, 20.0, [-1.0, 1.0]), fx(0.5, 0.5, 1.0, [-1.0, 1.0]), fx(0.75, 0.5, 0.5, [-1.0, 1.0], every=2), fx(-4.0, 1.0, 1.0, [-1.0, 1.0]),
+             fx(0.0, 0.25, 1.0, [-1.0, 1.0], max_steps=0), fx(0.0, 0.25, 1.0, None, max_steps=4, every=2), fx(0.0, 0.25, 1.0, None, max_steps=5, every=2),
+             fx(0.0, 0.5, 1.0, [-8.0, 8.0], max_steps=-1, max_time=37.5 + 6.0, t0=37.5, every=3), fx(1.0, -0.5, 1.0, [[-3.0], [1.0]])]
     for it in range(ncase):
         cls = CLASSES[it % len(CLASSES)]
-        cfg = gen_cfg(rng)
+        cfg = dict(FIXED[it // len(CLASSES)]) if it < len(FIXED) * len(CLASSES) else gen_cfg(rng)
+        if it < len(FIXED) * len(CLASSES): res.count("hand-made-configurations")
         try:
             tr, poss, logged, log = drive(cls, cfg, rng)
         except Runaway as ex:
@@ -210,6 +218,16 @@ def run(tier, seed):
                 if abs(float(t.time) - t.nsteps * dt_) > 1e-9 * max(1.0, abs(float(t.time))) or t.nsteps > maxs_ or offgrid:
                     bad.append(dict(failed="a trajectory ends at the first step at which the step limit is reached and logs every trace_every-th step (even-sampling tree member %d: step counter %d, time/dt %g, max_steps %d, trace_every %d, logged steps off the grid %r)"
                                            % (t._v["id"], t.nsteps, float(t.time) / dt_, maxs_, every_, offgrid[:4]), case=info)); break
+            if every_ == 1:
+                # every step logged: consecutive snapshots of every member (inherited history included) are exactly one time step apart
+                gap = None
+                for t in inst.trajs:
+                    tm = [float(sn["time"]) for sn in t.tracer]
+                    for a_, b_ in zip(tm, tm[1:]):
+                        if abs((b_ - a_) - dt_) > 1e-9 * max(1.0, abs(b_)): gap = (t._v["id"], a_, b_); break
+                    if gap: break
+                if gap:
+                    bad.append(dict(failed="the log holds the initial condition and then every step, with times spaced by whole time steps (even-sampling tree member %d: consecutive snapshots at t=%r and t=%r with dt=%r)" % (gap + (dt_,)), case=info))
             if every_ != 1 or maxs_ != 600:
                 continue          # the box-rule reading below needs every step in the log
             res.count("es-tree-box-rule", len(inst.trajs)); res.case(("estree-box", mname, k, lo, hi), len(inst.trajs) > 1, info)
@@ -223,6 +241,18 @@ def run(tier, seed):
                 if (left_at is None and not ended_by_steps) or (left_at is not None and left_at != len(xs) - 1):
                     bad.append(dict(failed="a trajectory ends at the first step at which it has left the bounding box after having been inside it - never earlier and never later (even-sampling tree member %d: %d snapshots, first inside at %r, first outside afterwards at %r, last x=%r)"
                                            % (t._v["id"], len(xs), first_in, left_at, xs[-1]), case=info)); break
+    # ---- options handed through BatchedTraj reach the trajectories: initial time, limits, stride
+    from mudslide.tracer import TraceManager
+    for it in range(4 if tier == "quick" else 30):
+        t0_ = rng.choice([37.5, -12.0, 1234.5]); dt_ = rng.choice([5.0, 10.0]); nst_ = rng.randint(3, 12); every_ = rng.choice([1, 2])
+        C_ = [mudslide.TrajectorySH, mudslide.Ehrenfest, mudslide.TrajectoryCum][it % 3]
+        r_ = BatchedTraj(MM["simple"](), TrajGenConst([-3.0], [10.0], 0, seed=rng.randrange(2 ** 31)), C_, samples=2, dt=dt_, t0=t0_, max_time=t0_ + dt_ * nst_, trace_every=every_, tracemanager=TraceManager()).compute()
+        res.count("batch-option-plumbing"); res.case(("batchopts", t0_, dt_, nst_, every_, it), True)
+        for t in r_.traces:
+            tm = [float(sn["time"]) for sn in t]
+            if not tm or abs(tm[0] - t0_) > 1e-9 or abs(tm[-1] - (t0_ + dt_ * nst_)) > 1e-6:
+                bad.append(dict(failed="a trajectory started through BatchedTraj with t0=%r, dt=%r, max_time=%r logs its initial condition at t0 and ends when the time limit is reached (logged times %r ... %r, %d snapshots)" % (t0_, dt_, t0_ + dt_ * nst_, tm[:1], tm[-1:], len(tm)),
+                                case=dict(cls=C_.__name__, t0=t0_, dt=dt_, steps=nst_))); break
     # ---- snapshot self-consistency on real models: both representations (non-diagonal Hamiltonian), coherent and mixed density matrices
     for it in range(8 if tier == "quick" else 80):
         mname, x0, p0 = [("simple", [-1.0], [12.0]), ("dual", [-2.0], [25.0]), ("super", [-2.0], [9.0]), ("vibronic", [0.1, -0.2, 0.15, 0.05, 0.4], [0.5, -0.3, 0.2, 0.1, 2.0])][it % 4]
